@@ -11,7 +11,7 @@ EXPLANATION = (
     "writes to the connection is Framed::write applied to self and the Some payload of maybe_pong(decoded packet); that call is "
     "dominated by the Some edge, lies on every path from that edge to `return Ok(packet)` (written before the packet is handed out), "
     "is not re-reachable within one loop iteration (at most once per packet), its error is propagated, and read/read_buf contain no "
-    "other call on self.inner that writes. Not decided: transport behaviour; histories (the rules are per packet and the loop returns "
+    "other call on self.inner that writes; the reply leaves through Framed::write, whose complete-write rules (C06) make it one whole frame. Not decided: transport behaviour; histories (the rules are per packet and the loop returns "
     "after each delivered packet)."
 )
 
